@@ -31,6 +31,8 @@ type Entry struct {
 	Tier     string // "" both, "thorough" only in thorough
 	TimeoutS int
 	NoInit   bool
+	Concurrent bool  // concurrency mode: thread-modular unfolding + partial-order SMT encoding
+	CSolver  string
 	What     string // one line: what is encoded / asserted
 }
 
@@ -71,6 +73,7 @@ type runResult struct {
 	samples []map[string]uint64
 	maxdec  int
 	skipped map[string]int
+	cmSchedule []string
 }
 
 func loadFindings(vdir string) []Finding {
@@ -499,7 +502,7 @@ func runJob(ld *engine.Loaded, e Entry, shard int, mode string, params map[strin
 		r.err = fmt.Errorf("harness entry %s not found", e.Func)
 		return r
 	}
-	cfg := engine.Config{Solver: e.Solver, Shard: shard, MaxDecisions: e.MaxDec, MaxSteps: e.MaxSteps, Params: params, Deadline: deadline, TimeoutS: e.TimeoutS}
+	cfg := engine.Config{CSolver: e.CSolver, Solver: e.Solver, Shard: shard, MaxDecisions: e.MaxDec, MaxSteps: e.MaxSteps, Params: params, Deadline: deadline, TimeoutS: e.TimeoutS}
 	x, err := engine.NewExec(ld.Prog, cfg)
 	if err != nil {
 		r.err = err
@@ -512,7 +515,27 @@ func runJob(ld *engine.Loaded, e Entry, shard int, mode string, params map[strin
 			return r
 		}
 	}
-	r.rep = x.Explore(fn)
+	if e.Concurrent {
+		cm := x.RunConcurrent(fn)
+		rep := &engine.Report{Entry: fn.String(), Paths: cm.Stats.Paths, PathKinds: map[string]int{}, Reached: map[string]int{}, Inconcl: x.Inconcl}
+		rep.PathKinds["done"] = cm.Stats.Paths
+		rep.Reached[fmt.Sprintf("concurrency: %d threads, %d event nodes (%d reads, %d writes), %d unfolding passes, result %s, encode %.1fs solve %.1fs",
+			cm.Stats.Threads, cm.Stats.Nodes, cm.Stats.Reads, cm.Stats.Writes, cm.Stats.Passes, cm.Stats.Result, cm.Stats.EncodeS, cm.Stats.SolveS)] = 1
+		switch cm.Stats.Result {
+		case "unsat":
+		case "sat":
+			rep.Violations = append(rep.Violations, engine.Violation{Tag: cm.BadTag, Inputs: map[string]uint64{}, Where: strings.Join(cm.Schedule, "\n"), Confirmed: "schedule"})
+		default:
+			rep.Inconcl = append(rep.Inconcl, "concurrency analysis: "+cm.Stats.Result)
+		}
+		if cm.Stats.Paths > 0 {
+			x.Samples = append(x.Samples, map[string]uint64{"threads": uint64(cm.Stats.Threads), "event_nodes": uint64(cm.Stats.Nodes), "thread_paths": uint64(cm.Stats.Paths)})
+		}
+		r.rep = rep
+		r.cmSchedule = cm.Schedule
+	} else {
+		r.rep = x.Explore(fn)
+	}
 	s := x.Solver()
 	r.queries, r.sat, r.unsat, r.unknown, r.solverS = s.Queries, s.NSat, s.NUnsat, s.NUnknown, s.Seconds
 	r.funcs = engine.SortedKeys(x.Funcs)
